@@ -859,6 +859,11 @@ impl KotoVm {
 
         self.instruction_ip = self.ip();
 
+        // Sequences and strings that are still being built when an error leaves this function
+        // will never be completed, so the builder stacks get reset to their current sizes then.
+        let sequence_builder_count = self.sequence_builders.len();
+        let string_builder_count = self.string_builders.len();
+
         // Every code path in this function must set the execution state to something other
         // than Active before exiting.
         self.execution_state = ExecutionState::Active;
@@ -879,6 +884,8 @@ impl KotoVm {
                         false,
                     )
                     .map(|_| KValue::Null);
+                self.sequence_builders.truncate(sequence_builder_count);
+                self.string_builders.truncate(string_builder_count);
                 #[cfg(koto_verif)]
                 self.verif_event("Propagate", 0, 0, "timeout");
                 #[cfg(koto_verif)]
@@ -949,6 +956,8 @@ impl KotoVm {
                             *vm = Some(self.spawn_shared_vm().into());
                         }
                         self.execution_state = ExecutionState::Inactive;
+                        self.sequence_builders.truncate(sequence_builder_count);
+                        self.string_builders.truncate(string_builder_count);
                         #[cfg(koto_verif)]
                         self.verif_event("Propagate", 0, 0, Self::verif_error_class(&error));
                         #[cfg(koto_verif)]
